@@ -251,12 +251,15 @@ def epk_jwk(epk: dict) -> dict:
     return export_jwk(epk, private=False)
 
 
-def parse_epk(v) -> dict:
+def parse_epk(v, strict: bool = True) -> dict:
     from .keys import parse_jwk, JWKError
     if not isinstance(v, dict):
         raise Reject("epk must be an object")
     if "d" in v:
         raise Reject("epk carries private material")
+    if not strict and isinstance(v.get("crv"), str):
+        # lenient oracle: the kty label of an (unauthenticated) epk does not change the point; the curve decides
+        v = dict(v, kty="EC" if v["crv"] in CURVES else "OKP" if v["crv"] in OKP_SIZES else v.get("kty"))
     try:
         return parse_jwk(v, strict=True)
     except JWKError as e:
@@ -352,7 +355,8 @@ def wrap_for_recipient(alg: str, enc: str, key: dict, hdr: dict, cek: bytes | No
     raise Reject(f"unknown alg {alg!r}")
 
 
-def unwrap_for_recipient(alg, enc: str, key: dict, hdr: dict, ek: bytes, sender: dict | None = None, tag: bytes | None = None) -> bytes:
+def unwrap_for_recipient(alg, enc: str, key: dict, hdr: dict, ek: bytes, sender: dict | None = None, tag: bytes | None = None,
+                         strict: bool = True) -> bytes:
     if not isinstance(alg, str) or alg not in ALGS:
         raise Reject(f"unknown alg {alg!r}")
     if enc not in ENCS:
@@ -396,7 +400,7 @@ def unwrap_for_recipient(alg, enc: str, key: dict, hdr: dict, ek: bytes, sender:
         kek = hashlib.pbkdf2_hmac(hn, key["k"], alg.encode() + b"\x00" + p2s, p2c, klen)
         return aes_unwrap(kek, ek)
     # ECDH
-    epk = parse_epk(hdr.get("epk"))
+    epk = parse_epk(hdr.get("epk"), strict)
     z = dh(key, epk)
     if alg in ECDH_1PU:
         if sender is None:
@@ -538,7 +542,7 @@ def decrypt_parts(pseg: str, unprotected, recipients: list, iv_s, ct_s, tag_s, a
             ek = _dec("encrypted_key", ek_s, strict) if ek_s is not None else b""
             key = keyres(hdr)
             s = sender(hdr) if callable(sender) else sender
-            cek = unwrap_for_recipient(hdr.get("alg"), enc, key, hdr, ek, s, tag)
+            cek = unwrap_for_recipient(hdr.get("alg"), enc, key, hdr, ek, s, tag, strict)
             if len(cek) != ENCS[enc][0]:
                 raise Reject("cek length")
             ceks.append(cek)
